@@ -29,7 +29,7 @@ def sh(cmd, **kw):
     return subprocess.run(cmd, shell=True, capture_output=True, text=True, **kw)
 
 
-patch = sh(f"git -C {wt} diff -- src").stdout
+patch = sh(f"git -C {wt} diff HEAD -- src").stdout
 assert patch.strip(), "no change in the worktree"
 open(f"{out}/patch.diff", "w").write(patch)
 t = sh(f"cd {wt} && /venv/bin/python -m pytest -q -p no:cacheprovider --continue-on-collection-errors 2>&1 | tail -1", env=env).stdout.strip()
